@@ -1,8 +1,11 @@
 """C07 - every model the topology API builds satisfies the published graph rules and containment structure; views are exact and read-only."""
 from vf.registry import add
 from harness.topo_steps import mk, ALL_OPS, ENC
-for _k, _tiers in (('S3', ("quick", "thorough")), ('S1', ("thorough",)), ('S0', ("thorough",))):
+for _k, _tiers in (('S4', ("quick", "thorough")), ('S3', ("thorough",)), ('S1', ("thorough",)), ('S0', ("thorough",))):
     for _op in ALL_OPS:
-        add("c07/%s/%s" % (_k, _op), mk('C07', _k, _op), timeout=900, tiers=_tiers, encodes=ENC,
+        if _k == 'S4' and _op == 'add_network_service':
+            add("c07/S4/add_network_service_two_interfaces", mk('C07', _k, _op), timeout=1500, tiers=("thorough",), encodes=ENC,
+                bounds="skeleton S4, new service with 0..2 interfaces from 5 representative ones at symbolic positions")
+        add("c07/%s/%s" % (_k, _op), mk('C07', _k, _op, small=(_k == 'S4')), timeout=900, tiers=_tiers, encodes=ENC,
             bounds="skeleton %s, one %s with symbolic arguments (names/sites/types/interfaces by symbolic index incl. unused and duplicate ones, "
                    "unbounded int capacities, unbounded symbolic model string); 13 structural rules + containment + name uniqueness + views" % (_k, _op))
